@@ -17,8 +17,9 @@ cedar_schema/ast.rs `deduplicate_annotations`: a repeated key is `UserError::Dup
 `Some`.  Hence `@key` (JSON `null`) comes back as `""`: `normAnns`.
 
 Modelled here: annotation lists, annotated declarations and annotated declaration lists (`Annotated<Decl>*`, a namespace body).
-NOT modelled: annotations on record ATTRIBUTES (they live inside `TyJson` / `AttrsC`), the `@…` prefix of a `namespace` block inside
-`parseItems`, and string escaping.
+Whole annotated fragments (`FragmentA`, `printFragmentA`, `parseItemsA`: annotations on `namespace` blocks too) are defined; the theorems
+cover the declaration lists (see Thm/C09.lean for what is proved about `parseItemsA`).
+NOT modelled: annotations on record ATTRIBUTES (they live inside `TyJson` / `AttrsC`) and string escaping.
 -/
 namespace Cedar.SchemaSyntax
 
@@ -114,5 +115,57 @@ def printNsA (d : NamespaceA) : List Tok :=
 /-- forget the annotations -/
 def NamespaceA.strip (d : NamespaceA) : NamespaceJ :=
   ⟨d.commons.map (·.2), d.entities.map (·.2), d.actions.map (·.2)⟩
+
+/-- an annotated fragment: the empty namespace carries no annotations of its own (`deserialize_schema_fragment` refuses them) -/
+structure FragmentA where
+  empty : Option NamespaceA
+  named : List (QName × AnnsJ × NamespaceA)
+
+def printNamedA : List (QName × AnnsJ × NamespaceA) → List Tok
+  | [] => []
+  | (q, a, d) :: rest => printAnns a ++ (.id "namespace" :: (printName q ++ .lb :: (printNsA d ++ .rb :: printNamedA rest)))
+
+/-- `impl Display for Fragment` with the annotations -/
+def printFragmentA (f : FragmentA) : List Tok :=
+  (match f.empty with | some d => printNsA d | none => []) ++ printNamedA f.named
+
+/-- a top-level item with its annotations -/
+inductive ItemA where
+  | ns (anns : AnnsJ) (name : QName) (decls : List (AnnsJ × DeclC))
+  | decl (anns : AnnsJ) (d : DeclC)
+
+/-- `Schema := Namespace*`, `Namespace := Annotated<Namedspace> | Annotated<Decl>` -/
+def parseItemsA : Nat → List Tok → Option (List ItemA)
+  | 0, _ => none
+  | _ + 1, [] => some []
+  | fuel + 1, toks =>
+    match parseAnnotations toks with
+    | none => none
+    | some (a, .id "namespace" :: .id s :: r) =>
+      (match parsePath s r with
+        | some (.ident q, .lb :: r1) =>
+          (match parseDeclListA fuel r1 with
+            | some (ds, .rb :: r2) =>
+              if q.isReserved then none
+              else (match parseItemsA fuel r2 with
+                | some its => some (.ns a q ds :: its)
+                | none => none)
+            | _ => none)
+        | _ => none)
+    | some (a, r) =>
+      match parseDecl r with
+      | some (d, r') =>
+        (match parseItemsA fuel r' with
+          | some its => some (.decl a d :: its)
+          | none => none)
+      | none => none
+
+/-- forget the annotations: the items of the un-annotated grammar -/
+def ItemA.strip : ItemA → ItemC
+  | .ns _ q ds => .ns q (ds.map (·.2))
+  | .decl _ d => .decl d
+
+def FragmentA.strip (f : FragmentA) : FragmentJ :=
+  ⟨f.empty.map NamespaceA.strip, f.named.map fun x => (x.1, x.2.2.strip)⟩
 
 end Cedar.SchemaSyntax
